@@ -15,6 +15,7 @@ import RF.Driver.Config
 import RF.Driver.TokEquiv
 import RF.Driver.Idem
 import RF.Driver.Literal
+import RF.Driver.StringFmt
 /-!
 `rfmodel`: one request per line on stdin, one response per line on stdout.
 `?` is printed for a request no handler understands (the harness treats it as a protocol error,
@@ -38,7 +39,8 @@ def handlers : List (String → List String → Option String) :=
    RF.Driver.Config.handle,
    RF.Driver.TokEquiv.handle,
    RF.Driver.Idem.handle,
-   RF.Driver.Literal.handle]
+   RF.Driver.Literal.handle,
+   RF.Driver.StringFmt.handle]
 
 def dispatch (line : String) : String :=
   match (line.trimAscii.toString.splitOn " ").filter (· ≠ "") with
